@@ -17,7 +17,8 @@ namespace Fundraising
 open Fundraising.Tables Fundraising.Generated
 
 /-- every registered command binds to an rpc that exists and to fields that exist in its
-    request message; placeholders in `Use` match the positional arguments -/
+    request message; placeholders in `Use` match the positional arguments; no `repeated`
+    field is bound as a (single-valued) positional argument -/
 theorem C20_bindings_resolve : cliCmds.all (·.resolves rpcs) = true := by decide +kernel
 
 /-- every rpc of both services has a command entry (possibly `skip`), so autocli generates
@@ -43,6 +44,17 @@ theorem C20_binary_starts : binaryStarts cliCmds rpcs = true := C20_bindings_res
 example : (CliCmd.resolves
     { service := "Query", rpc := "GetAuction", use := "get-auction [id]", skip := false,
       positional := ["id"], varargs := [false], optional := [false], conditional := false } rpcs) = false := by
+  decide +kernel
+
+/-- regression witness of the second repaired defect: binding the repeated field
+    `vesting_schedules` positionally (exactly one schedule could ever be sent) does not resolve -/
+example : (CliCmd.resolves
+    { service := "Msg", rpc := "CreateFixedPriceAuction",
+      use := "create-fixed-price-auction [start-price] [selling-coin] [paying-coin-denom] [vesting-schedules] [start-time] [end-time]",
+      skip := false,
+      positional := ["start_price", "selling_coin", "paying_coin_denom", "vesting_schedules", "start_time", "end_time"],
+      varargs := [false, false, false, false, false, false], optional := [false, false, false, false, false, false],
+      conditional := false } rpcs) = false := by
   decide +kernel
 
 end Fundraising
